@@ -30,6 +30,6 @@ For each change X in {{A, B}} deliver in /tmp/seed_{pid}/X/ :
   - demo.py         : a small standalone program (run as `PYTHONPATH=<repo root> /venv/bin/python demo.py`) that exits 0 on the unmodified code and exits non-zero (assertion failure) with the change applied, demonstrating the property violation through the public API
   - notes.md        : 5-10 lines: what the change does, why it violates the property, what specific circumstances are needed for it to manifest, and the result of the full test-suite run with the change applied (must be all passing).
 
-Procedure: read the anchored files, design a change, apply it in {wt}, write demo.py, verify demo fails with the change and passes without (use `git stash` / `git checkout -- .`), run the full test suite with the change applied and confirm it passes, save patch.diff, then `git checkout -- .` before starting the next change. Leave the worktree clean (no modifications) when you finish. If the unmodified code ALREADY violates the property in some respect, do not use that respect for your demo (the demo must pass on the unmodified code); mention it in notes.md.
+Procedure: read the anchored files, design a change, apply it in {wt}, write demo.py, verify demo fails with the change and passes without (save your change with `git diff > /tmp/seed_'{pid}'/X.diff`, revert with `git checkout -- .`, re-apply with `git apply`; NEVER use `git stash`: the stash is shared between all worktrees of this repository and other people are working in sibling worktrees), run the full test suite with the change applied and confirm it passes, save patch.diff, then `git checkout -- .` before starting the next change. Leave the worktree clean (no modifications) when you finish. If the unmodified code ALREADY violates the property in some respect, do not use that respect for your demo (the demo must pass on the unmodified code); mention it in notes.md.
 
 Final answer: a short summary of A and B (files/lines touched, how they manifest, test-suite result).""")
